@@ -185,6 +185,23 @@ def run(ctx):
             if (ch.name, ch.group_name, ch.path, list(ch[:]), ch.properties["n"]) != (c, g, exp_path, [i, i + 1], g + "|" + c):
                 violations.append(Violation("channel (%r, %r) read back as name=%r group=%r path=%r data=%r" % (g, c, ch.name, ch.group_name, ch.path, list(ch[:])),
                                             dict(kind="e2e", objects=objs, at=i)))
+        # the same file read with memmap_dir (file-backed arrays: names must not leak into file-system paths)
+        if counts["end_to_end"] % 3 == 0:
+            import shutil
+            import tempfile
+            md = tempfile.mkdtemp(prefix="nptdms_verif_c16_")
+            try:
+                fm = TdmsFile.read(io.BytesIO(buf.getvalue()), memmap_dir=md)
+                with TdmsFile.open(io.BytesIO(buf.getvalue()), memmap_dir=md) as fo:
+                    for i, (g, c) in enumerate(objs):
+                        if list(fm[g][c][:]) != [i, i + 1] or list(fo[g][c][:]) != [i, i + 1]:
+                            violations.append(Violation("channel (%r, %r) read with memmap_dir gives %r / %r" % (g, c, list(fm[g][c][:]), list(fo[g][c][:])), dict(kind="e2e", objects=objs, at=i)))
+                            break
+                del fm
+            except Exception as ex:  # noqa
+                violations.append(Violation("reading channels named %r with memmap_dir raised %s: %s" % (objs, type(ex).__name__, str(ex)[:120]), dict(kind="e2e", objects=objs)))
+            finally:
+                shutil.rmtree(md, ignore_errors=True)
         if sorted((ch.group_name, ch.name) for gr in f.groups() for ch in gr.channels()) != sorted(objs):
             violations.append(Violation("set of channels read differs from the set written: %r" % (objs,), dict(kind="e2e", objects=objs)))
         if len(violations) > 4:
